@@ -20,7 +20,9 @@ Subscription(impl, hascfg, cfg) ==
   IF ~hascfg \/ cfg = {} THEN [ok |-> TRUE, ev |-> impl]
   ELSE IF cfg \subseteq impl THEN [ok |-> TRUE, ev |-> cfg] ELSE [ok |-> FALSE, ev |-> {}]
 AdjustOf(e, ctr) == IF e = "CreateContainer" THEN "CreateContainer/" \o ctr ELSE ""
-UpdatesOf(e) == IF e \in {"CreateContainer", "UpdateContainer", "StopContainer"} THEN <<"upd-of-" \o e>> ELSE <<>>
+\* the handlers answer with an update of another container and one (ignore-failure, cpu shares 77) of the request's own
+UpdatesOf(e) == IF e \in {"CreateContainer", "UpdateContainer", "StopContainer"}
+                THEN <<"upd-of-" \o e, "ctr-" \o e \o "!:77">> ELSE <<>>
 HasCtr(e) == e \notin {"RunPodSandbox", "StopPodSandbox", "RemovePodSandbox", "UpdatePodSandbox", "PostUpdatePodSandbox"}
 
 VARIABLES l, bad, stats, s
